@@ -221,7 +221,7 @@ def b6_from_occupancy(ck):
     srcs = []
     for blk in b.blocks:
         for s in blk["stmts"]:
-            if s["k"] == "assign" and not s["place"]["p"] and b.local_name(s["place"]["l"]) == "occupancy":
+            if s["k"] == "assign" and not s["place"]["p"] and b.local_ty(s["place"]["l"]).endswith("board::BitBoard"):
                 srcs.append(tb.rvalue(s["rv"]))
     good_src = any(is_call(x, "Index<I>>::index") and x[2][0] == ("param", 2) and x[2][1] == pi for x in srcs)
     ck.req(good_src, "B6.own_bitboard", "from_occupancy", b.where(), "the popped bitboard is not piece_occupancy[piece_index] of the same piece index")
